@@ -58,6 +58,11 @@ pub fn c01(ctx: &Ctx) -> Collector {
     run_space(&col, 18, &s_len_utf8(ctx.tier.thorough()), &p, true, &no_extra);
     run_space(&col, 19, &spaces::s_forced_dense(ctx.tier.thorough()), &p, true, &no_extra);
     run_space(&col, 20, &s_counts(), &p, true, &no_extra);
+    run_space(&col, 61, &s_runs(), &p, true, &no_extra);
+    // automatic mode on long strings with one character of another class at every position, and on two-run strings: a
+    // detection slip that still yields a symbol shows as a payload that decodes to something else
+    run_space(&col, 64, &s_long_auto(ctx.tier.thorough()), &p, true, &no_extra);
+    run_space(&col, 65, &s_mixed_auto(if ctx.tier.thorough() { 64 } else { 48 }, ctx.tier.thorough()), &p, true, &no_extra);
     run_histories(&col, 22, &p, ctx.tier.thorough());
     run_space(&col, 23, &spaces::s_antimask(ctx.tier.thorough()), &p, true, &no_extra);
     run_space(&col, 24, &s_corpus(), &p, true, &no_extra);
@@ -321,6 +326,9 @@ pub fn c05(ctx: &Ctx) -> Collector {
     run_space(&col, 5, &spaces::s_cross(ctx.tier.thorough()), &p, false, &no_extra);
     run_space(&col, 6, &spaces::s_order(ctx.tier.thorough()), &p, false, &no_extra);
     run_space(&col, 7, &s_len_utf8(ctx.tier.thorough()), &p, false, &no_extra);
+    // automatic mode on long strings of each alphabet with one other character at every position (the version is the
+    // smallest for the mode the content has; a detection slip shows as a panic or a wrong version)
+    run_space(&col, 16, &s_long_auto(ctx.tier.thorough()), &p, false, &no_extra);
     run_space(&col, 8, &s_long_foreign(ctx.tier.thorough()), &p, false, &no_extra);
     run_space(&col, 9, &s_default_level_big(), &p, false, &no_extra);
     if ctx.tier.thorough() {
@@ -347,6 +355,8 @@ pub fn c06(ctx: &Ctx) -> Collector {
     run_space(&col, 15, &spaces::s_cross(ctx.tier.thorough()), &p, true, &no_extra);
     run_space(&col, 16, &spaces::s_pair_ctx(ctx.tier.thorough()), &p, true, &no_extra);
     run_space(&col, 17, &spaces::s_order(ctx.tier.thorough()), &p, true, &no_extra);
+    run_space(&col, 62, &s_runs(), &p, true, &no_extra);
+    run_space(&col, 63, &s_counts(), &p, true, &no_extra);
     run_space(&col, 18, &s_len_utf8(ctx.tier.thorough()), &p, true, &no_extra);
     run_space(&col, 19, &spaces::s_forced_dense(ctx.tier.thorough()), &p, true, &no_extra);
     run_histories(&col, 22, &p, ctx.tier.thorough());
@@ -472,6 +482,40 @@ pub fn s_long_auto(thorough: bool) -> Space {
 /// S_mixed_auto: strings made of a run of one class followed by a run of another (digits then alphanumeric
 /// letters, letters then digits, and the same with a lowercase tail), of every length up to `max_len` and every
 /// split point, clean and with one foreign byte at every position; automatic mode; version automatic and forced to
+/// S_runs: a run of c equal characters (c = 1..=13, 16, 17, 32, 33, 64) that starts at offset 0..=5 and is followed by
+/// 0, 1, 2, 3 or 5 other characters, for the characters whose encoded value is all zeros or all ones or a round number
+/// in each mode ('0' and '9' in Numeric; '0', 'A', blank, ':' in Alphanumeric; 0x00, 'a', 0xFF in Byte), with the mode
+/// forced and automatic. Shortcuts for runs (skipped zero groups, run-length scans, fast-forwarding) are keyed on
+/// exactly these shapes: the run's length modulo the packing group and where it starts inside a group.
+pub fn s_runs() -> Space {
+    let mut cases = vec![];
+    let lens: Vec<usize> = (1..=13).chain([16usize, 17, 32, 33, 64]).collect();
+    for m in 0..3usize {
+        let chars: &[u8] = match m {
+            0 => b"09",
+            1 => b"0A :",
+            _ => &[0x00, b'a', 0xFF],
+        };
+        for &ch in chars {
+            for &c in &lens {
+                for o in 0..=5usize {
+                    for t in [0usize, 1, 2, 3, 5] {
+                        let mut v: Vec<u8> = spaces::content(Family::Ctr, m, o);
+                        v.extend(std::iter::repeat(ch).take(c));
+                        let tail = spaces::content(Family::Ctr, m, t + 1);
+                        v.extend_from_slice(&tail[1..]);
+                        cases.push(Case::new(v.clone(), Opts { mode: Some(m as u8), ecl: Some(1), ..Opts::default() }));
+                        if (c + o + t) % 2 == 0 {
+                            cases.push(Case::new(v, Opts::default()));
+                        }
+                    }
+                }
+            }
+        }
+    }
+    Space { name: "S_runs".into(), describe: "a run of c equal characters (c = 1..=13, 16, 17, 32, 33, 64; '0' '9' in Numeric, '0' 'A' blank ':' in Alphanumeric, 0x00 'a' 0xFF in Byte) starting at offset 0..=5 and followed by 0, 1, 2, 3 or 5 other characters, mode forced (level M) and, for every second case, everything automatic".into(), cases, exhaustive: true }
+}
+
 /// S_counts: automatic mode on inputs in which the byte values that rule out a more compact mode occur an exact number
 /// of times: c in {255, 256, 257, 511, 512, 513, 768, 1024, 1280} occurrences of one such value (at the start, at the
 /// end, spread evenly) among 0, 1 or 300 characters of the compact class, and uniform inputs of those lengths. A
@@ -667,6 +711,7 @@ pub fn c09(ctx: &Ctx) -> Collector {
     run_space(&col, 8, &s_corpus(), &p, false, &c09_extra);
     run_space(&col, 9, &s_long_foreign(ctx.tier.thorough()), &p, false, &c09_extra);
     run_space(&col, 10, &s_counts(), &p, false, &c09_extra);
+    run_space(&col, 51, &s_runs(), &p, false, &c09_extra);
     col
 }
 
@@ -708,6 +753,7 @@ pub fn c10(ctx: &Ctx) -> Collector {
     run_space(&col, 23, &spaces::s_order(ctx.tier.thorough()), &p, false, &no_extra);
     run_space(&col, 25, &s_mixed_auto(if ctx.tier.thorough() { 64 } else { 48 }, ctx.tier.thorough()), &p, false, &no_extra);
     run_space(&col, 65, &s_counts(), &p, false, &no_extra);
+    run_space(&col, 106, &s_runs(), &p, false, &no_extra);
     run_space(&col, 28, &s_corpus(), &p, false, &no_extra);
     run_space(&col, 29, &s_long_foreign(ctx.tier.thorough()), &p, false, &no_extra);
     run_space(&col, 24, &s_len_utf8(ctx.tier.thorough()), &p, false, &no_extra);
@@ -792,11 +838,15 @@ fn callback_view(col: &Collector, thorough: bool) {
     use fast_qr::convert::svg::SvgBuilder;
     use fast_qr::convert::{Builder, Shape};
     let t0 = std::time::Instant::now();
-    let versions: Vec<usize> = if thorough { (1..=40).collect() } else { vec![1, 2, 7, 11, 12, 13, 20, 27, 28, 40] };
+    let versions: Vec<usize> = if thorough { (1..=40).collect() } else { vec![1, 2, 7, 10, 11, 12, 13, 20, 27, 28, 32, 40] };
     let mut tasks = vec![];
     for &v in &versions {
         for layout in 0..3usize {
-            for margin in [0usize, 3] {
+            // wide quiet zones too: coordinates beyond 255 (a renderer that stores them in a narrow integer)
+            for margin in [0usize, 3, 100, 300] {
+                if margin >= 100 && !(v == 10 || v == 32 || v == 40) {
+                    continue;
+                }
                 tasks.push((v, layout, margin));
             }
         }
